@@ -159,8 +159,8 @@ def conformance(ctx, exe, quick):
     if not run_scripts(ctx, exe, s3, "gen"):
         return
     rnd = random.Random(ctx.seed)
-    walks = unique_scripts(ctx.tlc_gen("TraceSink", "Gen_TraceSink.tla", "Gen_d7.cfg", simulate=(300, 70) if quick else (1500, 70), workers=1,
-                                       timeout=300, limit=300 if quick else 3000))
+    walks = unique_scripts(ctx.tlc_gen("TraceSink", "Gen_TraceSink.tla", "Gen_d7.cfg", simulate=(300, 70) if quick else (3000, 70), workers=1,
+                                       timeout=300, limit=300 if quick else 6000))
     if not run_scripts(ctx, exe, walks, "walks"):
         return
     # enable / disable cycles: every sequence of 6 calls over a small alphabet (enable, disable, one commit, one size limit); a seeded sample in the quick tier
@@ -177,12 +177,12 @@ def conformance(ctx, exe, quick):
         return {"ops": ops, "rep": 30, "pad": 880 + (i % 3) * 17}
     big = [bigger(i, s) for i, s in enumerate(with_commits + walks + cyc) if sum(1 for o in s["ops"] if o["o"] == "commit") >= 2]
     rnd.shuffle(big)
-    big = big[:60 if quick else 400]
+    big = big[:60 if quick else 800]
     ctx.notes.append("call sequences: %d exhaustive, %d random walks of 7 calls, %d enable/disable cycles of 6 calls, %d repeated with 30 x ~900 byte records per commit" % (len(s3), len(walks), len(cyc), len(big)))
     if not run_scripts(ctx, exe, big, "big"):
         return
     # 3. code -> spec: seeded random concurrent histories
-    plan = [("random", 60 if quick else 600, 12, ""), ("race", 24 if quick else 300, 8, "race")]
+    plan = [("random", 60 if quick else 1200, 12, ""), ("race", 24 if quick else 500, 8, "race")]
     for tag, nexec, nsteps, mode in plan:
         per = 30
         done, k = 0, 0
